@@ -376,8 +376,8 @@ func (v *Verifier) VerifyFunc(fc *FuncContract) (res *FuncResult) {
 	var obls []*Obligation
 	var allocs []Term
 	ex := &Exec{v: v, c: c, fn: fn, fc: fc, fname: fc.Full(), vals: map[ssa.Value]Val{}, obls: &obls,
-		count: map[string]int{}, allocs: &allocs, decAtHeader: map[*ssa.BasicBlock]Val{}, headerEnv: map[*ssa.BasicBlock]*Env{}, closureVals: map[Term]*ssa.MakeClosure{},
-		stack: []string{fn.String()}, named: map[string]Val{}, callSeen: map[string]bool{}}
+		count: map[string]int{}, allocs: &allocs, decAtHeader: map[*ssa.BasicBlock]Val{}, headerEnv: map[*ssa.BasicBlock]*Env{}, autoRange: map[*ssa.BasicBlock]*rangeInv{}, closureVals: map[Term]*ssa.MakeClosure{},
+		stack: []string{fn.String()}, named: map[string]Val{}, callSeen: map[string]bool{}, assertSeen: map[string]bool{}}
 	ex.top = ex
 	ex.nilcheck = fc.Options["nilcheck"] != ""
 	ex.sweep = fc.Pkg != modulePath+"/counts" || fc.Options["sweep"] != ""
@@ -499,6 +499,11 @@ func (v *Verifier) VerifyFunc(fc *FuncContract) (res *FuncResult) {
 					}
 				}
 			}
+		}
+	}
+	for _, ca := range fc.CallAsserts {
+		if !ex.assertSeen[fmt.Sprintf("%d %s", ca.Ordinal, ca.Callee)] {
+			unsup("call clause: call %d of %s not found", ca.Ordinal, ca.Callee)
 		}
 	}
 	for _, cn := range fc.CallNames {
